@@ -18,7 +18,7 @@ Tr == Traces[t]
 ToFs(nodes) == [p \in Paths |->
                   IF \E i \in 1..Len(nodes) : nodes[i].p = p
                   THEN LET n == nodes[CHOOSE i \in 1..Len(nodes) : nodes[i].p = p]
-                       IN [t |-> n.t, c |-> n.c, sz |-> n.sz, mt |-> n.mt, ns |-> n.ns, perm |-> n.perm, tgt |-> n.tgt]
+                       IN [t |-> n.t, c |-> n.c, sz |-> n.sz, mt |-> n.mt, ns |-> n.ns, perm |-> n.perm, tgt |-> n.tgt, uid |-> n.uid, gid |-> n.gid]
                   ELSE Absent]
 J == {Tr.judge[i] : i \in 1..Len(Tr.judge)}
 
